@@ -59,7 +59,13 @@ ZeroS2(j, pt, r) == ZeroS3(j, pt, r, BMod(MulN(r, pt)[1], NN))
 ZeroR3(j, pt, s, x1) == << Forge4("r=0", pt, BSubMod(BZero, x1, NN), BZero, s, FALSE), Forge4("r=n", pt, BSubMod(BZero, x1, NN), NN, s, FALSE) >>
 ZeroR2(j, pt, s) == ZeroR3(j, pt, s, BMod(MulN(s, C!PAdd(G, pt))[1], NN))
 ZeroCases(j) == ZeroS2(j, MulN(Dof(j), G), Kof(j)) \o ZeroR2(j, MulN(Dof(j), G), Kof(j))
+\* VALID digest-level signatures whose t = r + s has all-zero 64-bit limbs (the scalar of [t]P in verification): r = t (1 + d) - k, e = r - x([k]G), s = t - r
+Pow2(bytes) == BFromBE(<<1>> \o [q \in 1..bytes |-> 0])
+SparseTs(j) == << Pow2(8), Pow2(16), Pow2(24), BAdd(Pow2(24), <<1>>), BAdd(Pow2(16), Small(j, 14)), BAdd(Pow2(24), BMul(Pow2(8), Small(j, 15))), BAdd(BMul(Pow2(16), Small(j, 16)), <<7>>) >>
+SparseT3(j, pt, t, r, x1) == Forge4("sparse-t", pt, BSubMod(r, x1, NN), r, BSubMod(t, r, NN), VerifyRS(pt, BSubMod(r, x1, NN), r, BSubMod(t, r, NN)))
+SparseT2(j, d, k, t) == SparseT3(j, MulN(d, G), t, BSubMod(BMulMod(t, BAddMod(<<1>>, d, NN), NN), k, NN), BMod(MulN(k, G)[1], NN))
+SparseT(j) == IF j > 2 THEN <<>> ELSE [q \in 1..Len(SparseTs(j)) |-> SparseT2(j, Dof(j), Kof(j), SparseTs(j)[q])]
 Init == pidx = 0 /\ pout = <<>>
-Next == pidx < NK /\ pidx' = pidx + 1 /\ pout' = <<Honest(pidx + 1)>> \o SmallS(pidx + 1) \o SmallR(pidx + 1) \o TZero(pidx + 1) \o InfCase(pidx + 1) \o RetryCases(pidx + 1) \o NearMiss(pidx + 1) \o ZeroCases(pidx + 1)
+Next == pidx < NK /\ pidx' = pidx + 1 /\ pout' = <<Honest(pidx + 1)>> \o SmallS(pidx + 1) \o SmallR(pidx + 1) \o TZero(pidx + 1) \o InfCase(pidx + 1) \o RetryCases(pidx + 1) \o NearMiss(pidx + 1) \o ZeroCases(pidx + 1) \o SparseT(pidx + 1)
 Emit == \A j \in 1..Len(pout) : PrintT(<<"PLAN", ToJson(pout[j])>>)
 =============================================================================
